@@ -61,6 +61,16 @@ CHECKS = {
             "All 2N values of p (bucket centre, tie-1, tie, tie+1, targeted random mask) for four bootstrap variants; generated inputs/test polynomials/exponent vectors for blind-rotate-and-extract; AddressSanitizer build for the n > N scratch array.",
             "Tolerances are analytic (gadget truncation, key-switch rounding, 12 x noise bound); cases whose tolerance exceeds 1/16 are counted and not asserted.",
             "DESIGN.md §3 C04"),
+    "C09": ("exploration", "E1",
+            "rapidcheck over external-product variants, gadget grid, messages, exact (harness-built) and library-encrypted TGSW rows, extreme TLWE inputs and blind rotations; oracle A = exact sum_p dec_p*row_p per coefficient, oracle B = phase semantics with exact truncation terms and measured row errors",
+            "Generated cases against exact 64-bit integer references with analytic tolerances (FFT rounding only) on every back-end and build; noisy rows are handled as an exact identity by measuring their errors first.",
+            "Ring degree 1024 only; blind rotations use key sets with library rows of sigma ~ 0 (error +-1 unit per row coefficient, included in the tolerance).",
+            "DESIGN.md §3 C09"),
+    "C15": ("exploration", "E1+E2",
+            "before/after snapshots of all input objects and key material, metamorphic RNG probe through the API, and aliased-vs-copy byte comparison; rapidcheck over functions/patterns plus a full gate x aliasing-pattern table",
+            "Every gate with every applicable aliasing pattern is executed on every back-end; low-level evaluation functions run on generated small key sets with complete key snapshots.",
+            "Snapshots are 64-bit hashes of the arrays (collision probability negligible).",
+            "DESIGN.md §3 C15"),
 }
 
 ALL = ["C%02d" % k for k in range(1, 21)]
